@@ -20,7 +20,7 @@ SRC_GLOBS = ["src/containers/*.c", "src/utilities/*.c", "src/internal/*.c", "src
              "src/extensions/qconfig.c", "src/extensions/qaconf.c", "src/extensions/qlog.c",
              "src/ipc/*.c"]
 SAN_FLAGS = ["-fsanitize=address,undefined", "-fno-sanitize-recover=all", "-fno-omit-frame-pointer"]
-IMPL_VERSION = "2"   # bump when the layout of build/impl-* changes
+IMPL_VERSION = "3"   # bump when the layout of build/impl-* changes
 BASE_FLAGS = ["-std=gnu99", "-O1", "-g", "-D" + GUARD, "-D_GNU_SOURCE", "-w"]
 
 
@@ -109,7 +109,7 @@ def build_impl(variant="asan"):
             raise BuildError(r.stderr)
         # libqw.a: the same objects with the allocator symbols renamed (harness/allocwrap.h)
         ren = []
-        for sym in ("malloc", "calloc", "realloc", "strdup", "free"):
+        for sym in ("malloc", "calloc", "realloc", "strdup", "strndup", "vasprintf", "asprintf", "free"):
             ren += ["--redefine-sym", "%s=vf_%s" % (sym, sym)]
         r = sh(["objcopy"] + ren + [os.path.join(tmp, "libq.a"), os.path.join(tmp, "libqw.a")])
         if r.returncode != 0:
